@@ -20,6 +20,7 @@ import (
 	"path/filepath"
 	"sort"
 	"strings"
+	"sync"
 	"sync/atomic"
 	"time"
 
@@ -69,9 +70,100 @@ func c19Spell(scratch, sp string) string {
 	return scratch + strings.TrimPrefix(sp, "/S")
 }
 
+// c19Reader is an io.Reader that hands its data out in one of the ways the io.Reader contract allows:
+// at most `chunk` bytes per call (0 = as many as fit: short reads that are NOT the end of the data),
+// the last bytes together with io.EOF instead of a separate (0, io.EOF) call, and calls that return
+// (0, nil) ("nothing happened", which a caller must not take for the end).  It deliberately has no
+// WriteTo method, so that io.Copy and its replacements really go through Read.
+//
+// Input class added for the gap r3-C19-a: `open` used to return strings.Readers only, which deliver a whole
+// file in one call (io.Copy even bypasses Read through WriterTo), so a Hash1 that stops at the first
+// short read, or mishandles (n, io.EOF) / (0, nil), hashed every generated file set correctly.  C19 is
+// stated over the bytes of the files, whatever reader `open` returns (zip entries, pipes, network bodies).
+type c19Reader struct {
+	data    string
+	pos     int
+	chunk   int
+	eofData bool // the final bytes come with io.EOF in the same call
+	stutter bool // every other call returns (0, nil)
+	calls   int
+}
+
+func (r *c19Reader) Read(p []byte) (int, error) {
+	r.calls++
+	if len(p) == 0 {
+		return 0, nil
+	}
+	if r.stutter && r.calls%2 == 1 {
+		return 0, nil
+	}
+	if r.pos >= len(r.data) {
+		return 0, io.EOF
+	}
+	n := len(p)
+	if r.chunk > 0 && n > r.chunk {
+		n = r.chunk
+	}
+	n = copy(p[:n], r.data[r.pos:])
+	r.pos += n
+	if r.eofData && r.pos == len(r.data) {
+		return n, io.EOF
+	}
+	return n, nil
+}
+
+// c19Deliveries are the delivery patterns; pattern 0 is the plain strings.Reader.
+const c19Deliveries = 10
+
+// c19NewReader returns a reader of c with delivery pattern k (0 <= k < c19Deliveries).
+func c19NewReader(c string, k int) io.Reader {
+	switch k {
+	case 1:
+		return &c19Reader{data: c, chunk: 1}
+	case 2:
+		return &c19Reader{data: c, chunk: 3}
+	case 3:
+		return &c19Reader{data: c, chunk: 7}
+	case 4:
+		return &c19Reader{data: c, chunk: 64}
+	case 5:
+		return &c19Reader{data: c, chunk: 1000}
+	case 6:
+		return &c19Reader{data: c, eofData: true}
+	case 7:
+		return &c19Reader{data: c, chunk: 5, eofData: true}
+	case 8:
+		return &c19Reader{data: c, chunk: 4, stutter: true}
+	case 9:
+		return &c19Reader{data: c, chunk: 4096}
+	}
+	return strings.NewReader(c)
+}
+
+// c19Delivery picks the delivery pattern of a file from its name and length (FNV-1a), so that the same op
+// line always reads its files the same way.
+func c19Delivery(name string, n int) int {
+	h := uint32(2166136261)
+	for i := 0; i < len(name); i++ {
+		h = (h ^ uint32(name[i])) * 16777619
+	}
+	h = (h ^ uint32(n)) * 16777619
+	h ^= h >> 15
+	return int(h % c19Deliveries)
+}
+
 // c19Open builds the in-memory `open` of a pair list: the first pair with the name; a name without a
-// content (contents shorter than names) fails to open.
+// content (contents shorter than names) fails to open.  The readers deliver their content in a pattern
+// that depends on the file (c19Delivery); c19OpenWhole delivers every file in one piece.
 func c19Open(names, contents []string) func(string) (io.ReadCloser, error) {
+	return c19OpenWith(names, contents, c19Delivery)
+}
+
+func c19OpenWhole(names, contents []string) func(string) (io.ReadCloser, error) {
+	return c19OpenWith(names, contents, func(string, int) int { return 0 })
+}
+
+func c19OpenWith(names, contents []string, delivery func(string, int) int) func(string) (io.ReadCloser, error) {
 	m := map[string]string{}
 	for i, n := range names {
 		if i >= len(contents) {
@@ -86,8 +178,29 @@ func c19Open(names, contents []string) func(string) (io.ReadCloser, error) {
 		if !ok {
 			return nil, c19ErrOpen
 		}
-		return io.NopCloser(strings.NewReader(c)), nil
+		return io.NopCloser(c19NewReader(c, delivery(name, len(c)))), nil
 	}
+}
+
+// c19CwdMu serialises changes of the process working directory.
+var c19CwdMu sync.Mutex
+
+// c19WithCwd runs f with the working directory cwd and restores the previous one; it reports false
+// (f not run) when the directory cannot be entered.  Only C19 code runs in a C19 process and ops/oracle
+// cases are evaluated one at a time, so nothing else observes the temporary working directory.
+func c19WithCwd(cwd string, f func()) bool {
+	c19CwdMu.Lock()
+	defer c19CwdMu.Unlock()
+	old, err := os.Getwd()
+	if err != nil {
+		return false
+	}
+	if err := os.Chdir(cwd); err != nil {
+		return false
+	}
+	defer os.Chdir(old)
+	f()
+	return true
 }
 
 func c19Err(err error) string {
